@@ -8,7 +8,8 @@
    The whole-program statements of C10 (re-indentation invariance, idempotence, indentation = width x
    depth) are evaluated by the extracted holds_C10 on real luafmt output (harness/props/c10.py); their
    proof at whole-writer level needs Model/AstWriter.v. *)
-From PV Require Import Base.Prelude Model.FmtSpaces Generated.T_fmtspaces Proofs.FmtSpacesProofs Proofs.FmtLinesProofs.
+From PV Require Import Base.Prelude Spec.LuaTokens Model.FmtSpaces Model.FmtSpacesInst Model.WriterChunks
+  Generated.T_fmtspaces Proofs.FmtSpacesProofs Proofs.FmtLinesProofs Proofs.FmtChunksProofs.
 
 (* the pipeline only moves white space: every other byte of the run (comment text) is kept, in order *)
 Theorem C10_run_keeps_comment_text : forall cfg r, nonws (fmt_run cfg r) = nonws r.
@@ -52,14 +53,11 @@ Theorem C10_run_depends_on_norm : forall cfg r1 r2,
 Proof. exact fmt_run_depends_on_norm. Qed.
 Print Assumptions C10_run_depends_on_norm.
 
-(* formatting a formatted run again (same position, width and depth) changes nothing.  Proved for every
-   run that is followed by a token; C10_run_idempotent_partial: the run that ends the file
-   (f_at_end = true, where the last substitution rewrites the trailing white space) is not covered by this
-   theorem, it is checked on real luafmt output by the monitor *)
-Theorem C10_run_idempotent_partial : forall cfg r, f_at_end cfg = false ->
-  fmt_run cfg (fmt_run cfg r) = fmt_run cfg r.
-Proof. exact fmt_run_idempotent. Qed.
-Print Assumptions C10_run_idempotent_partial.
+(* formatting a formatted run again (same position, width and depth) changes nothing: for every run, also
+   the one that ends the file *)
+Theorem C10_run_idempotent : forall cfg r, fmt_run cfg (fmt_run cfg r) = fmt_run cfg r.
+Proof. exact fmt_run_idempotent_all. Qed.
+Print Assumptions C10_run_idempotent.
 
 (* the exact line form of the output: the run, split at line feeds after the tab / line-end
    normalisation, is mapped line by line (fmt_lines) and joined again *)
@@ -68,6 +66,72 @@ Theorem C10_run_canonical_form : forall cfg r l0 ls, split_nl (canon_ws r) = l0 
   (if f_at_end cfg then trail_nl (joinl (fmt_lines cfg l0 ls)) else joinl (fmt_lines cfg l0 ls)).
 Proof. exact fmt_run_lines. Qed.
 Print Assumptions C10_run_canonical_form.
+
+(* ---------- whole output, relative to the writer walk ----------
+   The writer's output is a list of chunks (Model/WriterChunks.v): one Trivia chunk per _get_code_for_spaces
+   call (cursor, _indent, at-end flag, run), one Code chunk per token passed; its text is chunks_text W chunks
+   with W = fmt_spaces w for luafmt with indentwidth w.  The three theorems below hold for EVERY chunk list
+   with the stated properties; what is missing for the whole-program clauses of C10 (hence _partial) is the
+   model of the walk (Model/AstWriter.v): that luafmt's output is such a chunk list, that it is `separated`
+   (no white-space run is split between two calls) with tidy code texts, and that the indent passed with a
+   token's run equals the number of blocks and brackets open at the token. *)
+
+(* a code token that begins a line after a line feed is preceded by exactly w x indent spaces, indent being
+   the _indent passed with the last non-empty white-space run before the token *)
+Theorem C10_indent_partial : forall w cs A i text B p q,
+  cs = A ++ Code i text :: B -> separated cs -> codes_ok cs -> no_end A ->
+  chunks_text (fmt_spaces w) A = p ++ NL :: q -> noNL q -> forallb is_sp q = true ->
+  exists ind, last_ind None A = Some ind /\ q = repeat SP (Z.to_nat w * Z.to_nat ind).
+Proof. exact chunks_token_indent. Qed.
+Print Assumptions C10_indent_partial.
+
+(* a token that begins the first line of the file sits at column 0 *)
+Theorem C10_first_line_partial : forall w cs A B, cs = A ++ B -> codes_ok cs ->
+  (forall s ind e r, In (Trivia s ind e r) A -> r <> [] -> s = 0) ->
+  noNL (chunks_text (fmt_spaces w) A) -> forallb is_sp (chunks_text (fmt_spaces w) A) = true ->
+  chunks_text (fmt_spaces w) A = [].
+Proof. exact chunks_first_line. Qed.
+Print Assumptions C10_first_line_partial.
+
+(* in the whole output "blank, line feed" and three line feeds in a row occur only inside code tokens (long
+   strings): no line ends in white space, at most one blank line separates lines *)
+Theorem C10_shape_partial : forall w cs, separated cs -> codes_ok cs ->
+  (forall i text, In (Code i text) cs -> has_sp_nl text = false /\ has3nl text = false) ->
+  has_sp_nl (chunks_text (fmt_spaces w) cs) = false /\ has3nl (chunks_text (fmt_spaces w) cs) = false.
+Proof. exact chunks_shape. Qed.
+Print Assumptions C10_shape_partial.
+
+(* two chunk lists with the same code texts whose white-space runs agree modulo blanks at line edges (same
+   position flags and indents) give the same output text; missing for C10's re-indentation clause: that
+   re-indenting the input changes the walk's chunk list only in this way (lexer + parser + walk) *)
+Theorem C10_reindent_partial : forall w cs1 cs2, Forall2 chunk_equiv cs1 cs2 ->
+  chunks_text (fmt_spaces w) cs1 = chunks_text (fmt_spaces w) cs2.
+Proof. exact chunks_reindent. Qed.
+Print Assumptions C10_reindent_partial.
+
+(* the hypotheses are satisfiable: `do` NL NL `x` at depth 1, width 2 *)
+Example C10_chunks_nonvacuous :
+  let nl := mkTok CNewline 0 [NL] [NL] in
+  let cs := [Trivia 0 0 false []; Code 0 [100; 111]; Trivia 1 1 false [nl; nl]; Code 3 [120]] in
+  separated cs /\ codes_ok cs /\
+  chunks_text (fmt_spaces 2) cs = [100; 111; NL; NL; SP; SP; 120].
+Proof.
+  cbn zeta. split; [|split].
+  - intros A s ind e t ts B H.
+    destruct A as [|c0 [|c1 [|c2 [|c3 [|c4 A]]]]]; cbn in H; try discriminate; inversion H; subst; reflexivity.
+  - intros i text [H | [H | [H | [H | []]]]]; inversion H; subst; (split; [reflexivity|]).
+    + exists [100], 111. repeat split; discriminate.
+    + exists [], 120. repeat split; discriminate.
+  - vm_compute. reflexivity.
+Qed.
+
+(* known finding (findings/known_C10.json C10-final-newline): the norm of C10_run_depends_on_norm keeps the blanks
+   after the last line of the run, and it has to: at the end of a file that has no final newline, blanks after
+   the last token make luafmt write a final newline, no blanks make it write none *)
+Theorem C10_end_blanks_refuted :
+  exists cfg r1 r2, f_at_end cfg = true /\ rstrip r1 = rstrip r2 /\ fmt_run cfg r1 <> fmt_run cfg r2.
+Proof. exact fmt_run_end_blanks_refuted. Qed.
+Print Assumptions C10_end_blanks_refuted.
 
 Example C10_norm_nonvacuous :
   let r1 := [SP; TAB; NL; TAB; SP; DASH; DASH; 99; SP; SP; NL; SP; SP; SP] in
